@@ -548,5 +548,6 @@ pub fn c18(max_ops: usize, big_keys: bool) -> PropDef<BtCase> {
             json!({"ts_cmp": c.ts_cmp, "nkeys": c.nkeys, "skew": c.skew, "n_ops": c.ops.len(), "ops": c.ops.iter().take(40).map(|o| format!("{o:?}")).collect::<Vec<_>>()})
         }),
         minimize: Some(Arc::new(minimize_bt)),
+        shrink_iters: 1500,
     }
 }
